@@ -92,10 +92,11 @@ def oracle(name, ib, mb, meta):
             # the platform's icon replaced in mid-session, after it was asked for: whether the responder serves the bytes it
             # fetched first or the new ones is not prescribed (it caches them until the next topology Reset)
             if icon_asked and g2['icon'] != g['icon']: icon_open = True
+            if g2 != g: acc.clear()            # the platform's data changed: a transfer that straddles the change reassembles nothing meaningful
             g = g2
         if not b.op.startswith('frame 0 ') or b.fault: continue
         ctx, fr = frame_of(b); d = dec(rxview(b, fr))
-        if d['tos'] == 0 and d['opc'] == 8: icon_asked = icon_open = False
+        if d['tos'] == 0 and d['opc'] == 8: icon_asked = icon_open = False; acc.clear()      # a mapper starts its transfers anew after a Reset
         if d['tos'] not in (0, 1) or d['opc'] != 0x0B: continue
         sn = sends_of(b)
         if d['seq'] == 0:
